@@ -32,51 +32,50 @@ mod verif_kani_svob {
         i
     }
 
-    fn binop<const W: usize>() {
-        let a0 = mk::<W>(false);
-        let b = mk::<W>(false);
-        let c = mk::<W>(false);
-        kani::assume(a0.size == b.size && a0.size == c.size);
-        let i = probe::<W>();
-        let mut a = a0.clone();
-        a.or(&b);
-        assert!(has(&a, i) == (has(&a0, i) || has(&b, i)) && a.size == a0.size);
-        let mut a = a0.clone();
-        a.and(&b);
-        assert!(has(&a, i) == (has(&a0, i) && has(&b, i)) && a.size == a0.size);
-        let mut a = a0.clone();
-        a.sub(&b);
-        assert!(has(&a, i) == (has(&a0, i) && !has(&b, i)) && a.size == a0.size);
-        let mut a = a0.clone();
-        a.or_minus(&b, &c);
-        assert!(has(&a, i) == (has(&a0, i) || (has(&b, i) && !has(&c, i))) && a.size == a0.size);
-        let mut a = a0.clone();
-        a.set_from(&b);
-        assert!(has(&a, i) == has(&b, i));
-        assert!(a0.and_is_zero(&b) == !{
-            let j = first_common(&a0, &b);
-            j.is_some()
-        });
-    }
-    fn first_common(a: &SimpleVob, b: &SimpleVob) -> Option<usize> {
-        let mut j = 0;
-        while j < a.data.len() * 32 {
-            if has(a, j) && has(b, j) {
-                return Some(j);
+    macro_rules! binop_harness {
+        ($name:ident, $w:expr, $unw:expr, |$a:ident, $b:ident, $c:ident| $call:expr, |$x:ident, $y:ident, $z:ident| $spec:expr) => {
+            #[kani::proof]
+            #[kani::unwind($unw)]
+            fn $name() {
+                let a0 = mk::<$w>(false);
+                let b0 = mk::<$w>(false);
+                let c0 = mk::<$w>(false);
+                kani::assume(a0.size == b0.size && a0.size == c0.size);
+                let i = probe::<$w>();
+                let ($x, $y, $z) = (has(&a0, i), has(&b0, i), has(&c0, i));
+                let want: bool = $spec;
+                let mut $a = SimpleVob { data: a0.data.clone(), size: a0.size };
+                let $b = &b0;
+                let $c = &c0;
+                $call;
+                assert!(has(&$a, i) == want);
+                assert!($a.size == a0.size && $a.data.len() == $w);
             }
-            j += 1;
+        };
+    }
+    binop_harness!(svob_or_w1, 1, 4, |a, b, c| { let _ = c; a.or(b) }, |x, y, z| { let _ = z; x || y });
+    binop_harness!(svob_or_w2, 2, 5, |a, b, c| { let _ = c; a.or(b) }, |x, y, z| { let _ = z; x || y });
+    binop_harness!(svob_and_w1, 1, 4, |a, b, c| { let _ = c; a.and(b) }, |x, y, z| { let _ = z; x && y });
+    binop_harness!(svob_and_w2, 2, 5, |a, b, c| { let _ = c; a.and(b) }, |x, y, z| { let _ = z; x && y });
+    binop_harness!(svob_sub_w1, 1, 4, |a, b, c| { let _ = c; a.sub(b) }, |x, y, z| { let _ = z; x && !y });
+    binop_harness!(svob_sub_w2, 2, 5, |a, b, c| { let _ = c; a.sub(b) }, |x, y, z| { let _ = z; x && !y });
+    binop_harness!(svob_or_minus_w1, 1, 4, |a, b, c| a.or_minus(b, c), |x, y, z| x || (y && !z));
+    binop_harness!(svob_or_minus_w2, 2, 5, |a, b, c| a.or_minus(b, c), |x, y, z| x || (y && !z));
+    binop_harness!(svob_set_from_w2, 2, 5, |a, b, c| { let _ = c; a.set_from(b) }, |x, y, z| { let _ = (x, z); y });
+
+    #[kani::proof]
+    #[kani::unwind(5)]
+    fn svob_and_is_zero_w2() {
+        let a = mk::<2>(false);
+        let b = mk::<2>(false);
+        kani::assume(a.size == b.size);
+        let i = probe::<2>();
+        let r = a.and_is_zero(&b);
+        if r {
+            assert!(!(has(&a, i) && has(&b, i)));
+        } else {
+            assert!((a.data[0] & b.data[0]) != 0 || (a.data[1] & b.data[1]) != 0);
         }
-        None
-    }
-    #[kani::proof]
-    #[kani::unwind(35)]
-    fn svob_binops_w1() {
-        binop::<1>();
-    }
-    #[kani::proof]
-    #[kani::unwind(67)]
-    fn svob_binops_w2() {
-        binop::<2>();
     }
 
     /// `or` with a shorter right operand (the slicer ORs a trimmed mask into a full-size one)
@@ -92,16 +91,46 @@ mod verif_kani_svob {
         assert!(a.size == a0.size && a.data.len() == 2);
     }
 
-    fn unary<const W: usize>() {
+    fn negated_h<const W: usize>() {
         let a = mk::<W>(false);
         let i = probe::<W>();
         let n = a.negated();
         assert!(n.size == a.size && n.data.len() == a.data.len());
         assert!(has(&n, i) == (i < a.size && !has(&a, i))); // complement inside [0, size), nothing above
-        let mut s = a.clone();
+    }
+    #[kani::proof]
+    #[kani::unwind(35)]
+    fn svob_negated_w1() {
+        negated_h::<1>();
+    }
+    #[kani::proof]
+    #[kani::unwind(35)]
+    fn svob_negated_w2() {
+        negated_h::<2>();
+    }
+    fn set_all_h<const W: usize>() {
+        let a = mk::<W>(false);
+        let i = probe::<W>();
+        let mut s = SimpleVob { data: a.data.clone(), size: a.size };
         let val: bool = kani::any();
         s.set_all(val);
         assert!(has(&s, i) == (val && i < a.size) && s.size == a.size);
+    }
+    #[kani::proof]
+    #[kani::unwind(35)]
+    fn svob_set_all_w1() {
+        set_all_h::<1>();
+    }
+    #[kani::proof]
+    #[kani::unwind(35)]
+    fn svob_set_all_w2() {
+        set_all_h::<2>();
+    }
+    #[kani::proof]
+    #[kani::unwind(5)]
+    fn svob_first_bit_w2() {
+        let a = mk::<2>(false);
+        let i = probe::<2>();
         let z = a.is_zero();
         if z {
             assert!(!has(&a, i));
@@ -115,8 +144,14 @@ mod verif_kani_svob {
             }
             None => assert!(z),
         }
-        let b = mk::<W>(false);
+    }
+    #[kani::proof]
+    #[kani::unwind(5)]
+    fn svob_first_common_w2() {
+        let a = mk::<2>(false);
+        let b = mk::<2>(false);
         kani::assume(b.size == a.size);
+        let i = probe::<2>();
         match a.first_bit_set_here_and_in(&b) {
             Some(k) => {
                 assert!(has(&a, k) && has(&b, k));
@@ -127,22 +162,11 @@ mod verif_kani_svob {
             None => assert!(!(has(&a, i) && has(&b, i))),
         }
     }
-    #[kani::proof]
-    #[kani::unwind(35)]
-    fn svob_unary_w1() {
-        unary::<1>();
-    }
-    #[kani::proof]
-    #[kani::unwind(35)]
-    fn svob_unary_w2() {
-        unary::<2>();
-    }
 
-    fn iterate<const W: usize>() {
+    fn iter_set_h<const W: usize>() {
         let a = mk::<W>(true);
         let t = probe::<W>();
         let mut seen_set = 0usize;
-        let mut n_set = 0usize;
         let mut last: Option<usize> = None;
         let mut increasing = true;
         a.iter_set_entries(|x| {
@@ -153,21 +177,24 @@ mod verif_kani_svob {
                 increasing = increasing && l < x;
             }
             last = Some(x);
-            n_set += 1;
         });
         assert!(seen_set == if t < a.size && has(&a, t) { 1 } else { 0 });
         assert!(increasing);
-        assert!(n_set == a.num_set());
+    }
+    fn iter_unset_h<const W: usize>() {
+        let a = mk::<W>(true);
+        let t = probe::<W>();
         let mut seen_unset = 0usize;
-        let mut n_unset = 0usize;
         a.iter_unset_entries(|x| {
             if x == t {
                 seen_unset += 1;
             }
-            n_unset += 1;
         });
         assert!(seen_unset == if t < a.size && !has(&a, t) { 1 } else { 0 });
-        assert!(n_set + n_unset == a.size);
+    }
+    fn iter_entries_h<const W: usize>() {
+        let a = mk::<W>(true);
+        let t = probe::<W>();
         let mut seen = 0usize;
         let mut val_ok = true;
         a.iter_entries(|b, x| {
@@ -180,13 +207,48 @@ mod verif_kani_svob {
     }
     #[kani::proof]
     #[kani::unwind(35)]
-    fn svob_iterate_w1() {
-        iterate::<1>();
+    fn svob_iter_set_w1() {
+        iter_set_h::<1>();
     }
     #[kani::proof]
     #[kani::unwind(35)]
-    fn svob_iterate_w2() {
-        iterate::<2>();
+    fn svob_iter_set_w2() {
+        iter_set_h::<2>();
+    }
+    #[kani::proof]
+    #[kani::unwind(35)]
+    fn svob_iter_unset_w1() {
+        iter_unset_h::<1>();
+    }
+    #[kani::proof]
+    #[kani::unwind(35)]
+    fn svob_iter_unset_w2() {
+        iter_unset_h::<2>();
+    }
+    #[kani::proof]
+    #[kani::unwind(35)]
+    fn svob_iter_entries_w1() {
+        iter_entries_h::<1>();
+    }
+    #[kani::proof]
+    #[kani::unwind(35)]
+    fn svob_iter_entries_w2() {
+        iter_entries_h::<2>();
+    }
+    /// num_set = number of members (checked against the closure iterator's count)
+    #[kani::proof]
+    #[kani::unwind(35)]
+    fn svob_num_set_w1() {
+        let a = mk::<1>(true);
+        let mut n = 0usize;
+        let mut i = 0;
+        while i < 32 {
+            if has(&a, i) {
+                n += 1;
+            }
+            i += 1;
+        }
+        assert!(a.num_set() == n);
     }
 
     /// the bit iterator (`iter()`) and the closure iterator agree with the set, in increasing order, and end
@@ -223,8 +285,7 @@ mod verif_kani_svob {
     #[kani::unwind(8)]
     fn svob_from_slice() {
         let bits: [bool; 5] = kani::any();
-        let n: usize = kani::any();
-        kani::assume(n <= 5);
+        let n: usize = 5; // concrete length: a symbolic allocation size blows CBMC up
         let v = SimpleVob::from_slice(&bits[..n]);
         let i: usize = kani::any();
         kani::assume(i < 32);
